@@ -748,6 +748,163 @@ def window_stream(r):
     return to_api
 
 
+# ---------------------------------------------------------------- stream `joint-graph`: several lazy results in ONE graph
+# "chunked = whole-raster" is about the value of every Dask-backed result however it gets computed.  Per-class distance
+# layers are the typical use (proximity(r, target_values=[k]) for each class k, then one Dataset / one dask.compute / a
+# difference): their graphs are merged, and tasks of different calls carrying the same key replace each other.  Every public
+# call re-jits its closure (~1 s), so: few groups, spread over the worker pool.
+JG_DIMS = ["targets", "max_distance", "metric", "raster", "identical"]
+
+
+def gen_jointgraph(rng, g_index, modes, n_variants=2):
+    """first call: a raster with two or three classes, targets = one class; every other call differs from it in exactly one
+    place (target_values / max_distance / metric / the raster / nothing), the function possibly swapped for a sibling
+    (proximity / allocation / direction share `_process`)"""
+    h, w = rng.randrange(3, 8), rng.randrange(3, 8)
+    sx, sy = rng.choice([(1.0, 1.0), (1.0, 1.0), (2.0, 0.5), (1.0, 3.0)])
+
+    def raster():
+        vals = [0.0] * (h * w)
+        cells = rng.sample(range(h * w), rng.randrange(3, 6))
+        for n, i in enumerate(cells):
+            vals[i] = float(1 + n % 3)
+        return [tok(v) for v in vals]
+
+    fit = [m for m in (1.0, 1.5, 2.0, 2.5, 3.2, None, None) if m is None or (int(m / sy + 0.5) <= h and int(m / sx + 0.5) <= w)]
+    base = dict(h=h, w=w, sx=sx, sy=sy, desc_y=rng.random() < 0.4, desc_x=False, x0=rng.choice([0.0, 10.0]), y0=rng.choice([0.0, -2.0]),
+                metric=rng.choice(["EUCLIDEAN", "MANHATTAN"]), vals=raster(), targets=[rng.choice([1.0, 2.0])],
+                max_distance=rng.choice(fit), mode=rng.choice(MODES), rch=list(random_composition(rng, h)),
+                cch=list(random_composition(rng, w)), sched=["synchronous", None], dtype="float64")
+    calls, dims = [base], []
+    for i in range(n_variants):
+        d = JG_DIMS[(g_index * n_variants + i) % len(JG_DIMS)]
+        c = dict(base)
+        if d == "targets":
+            c["targets"] = rng.choice([t for t in ([1.0], [2.0], [3.0], [1.0, 3.0], []) if t != base["targets"]])
+        elif d == "max_distance":
+            others = [m for m in fit if m != base["max_distance"]]
+            if not others:
+                continue
+            c["max_distance"] = rng.choice(others)
+        elif d == "metric":
+            c["metric"] = "MANHATTAN" if base["metric"] == "EUCLIDEAN" else "EUCLIDEAN"
+        elif d == "raster":
+            c["vals"] = raster()
+            if c["vals"] == base["vals"]:
+                continue
+        if rng.random() < 0.35:
+            c["mode"] = rng.choice([m for m in MODES if m != base["mode"]])
+            d += "+sibling"
+        calls.append(c)
+        dims.append(d)
+    return dict(stream="joint-graph", calls=calls, dims=dims, modes=modes, sched=rng.choice([["synchronous", None], ["threads", 4]]),
+                note="the lazy results of these calls on the Dask-backed raster are evaluated in ONE graph (compute: "
+                     "dask.compute(a.data, b.data, ...); dataset: xr.Dataset({...}).compute(); minus: (a - b).data.compute()); "
+                     "each must equal the NumPy-backed result of the same call")
+
+
+def call_public(c, backend):
+    import importlib
+    px = importlib.import_module("xrspatial.proximity")
+    kw = dict(target_values=list(c["targets"]), distance_metric=c["metric"])
+    if c["max_distance"] is not None:
+        kw["max_distance"] = c["max_distance"]
+    return getattr(px, c["mode"])(build(c, backend), **kw)
+
+
+def run_jointgraph(g):
+    """-> dict(used=[indices of the calls that both backends accept], evals=[(mode, effective mode, bad or None)],
+               distinct=bool, alone=[run_real_full per used call, only when something differed])"""
+    import warnings
+    warnings.filterwarnings("ignore")
+    import dask.array as da
+    import jointgraph
+    used, expected, lazies = [], [], []
+    for i, c in enumerate(g["calls"]):
+        try:
+            e = np.asarray(call_public(c, "numpy").data).astype(np.float64)
+            z = call_public(c, "dask")
+        except Exception:  # noqa: BLE001 -- a rejected call (halo exceeds the raster ...): the api stream judges single calls
+            if i == 0:
+                return dict(used=[], evals=[], distinct=False, alone=[])
+            continue
+        if not isinstance(z.data, da.Array):
+            continue
+        used.append(i)
+        expected.append(e)
+        lazies.append(z)
+    out = dict(used=used, evals=[], distinct=len(used) > 1 and jointgraph.distinct(expected), alone=[])
+    if len(used) < 2:
+        return out
+    for mode in g["modes"]:
+        eff = jointgraph.effective_mode(lazies, mode)
+        bad = None
+        try:
+            kind, got = jointgraph.evaluate(lazies, eff, tuple(g["sched"]))
+            if kind == "each":
+                for k, (e, v) in enumerate(zip(expected, got)):
+                    v = v.astype(np.float64)
+                    if not jointgraph.same_cells(e, v):
+                        idx = tuple(int(t) for t in np.argwhere(~((e == v) | (np.isnan(e) & np.isnan(v))))[0]) if e.shape == v.shape else ()
+                        bad = (used[k], f"call #{used[k]} ({g['calls'][used[k]]['mode']}): numpy {e[idx] if idx else e.shape} vs dask "
+                                        f"{v[idx] if idx else v.shape} at {idx}")
+                        break
+            else:
+                for k, v in enumerate(got, start=1):
+                    d = jointgraph.minus_bad(expected[0], expected[k], v, rtol=1e-6)
+                    if d:
+                        bad = (used[k], f"call #{used[0]} minus call #{used[k]}: " + d)
+                        break
+        except Exception as ex:  # noqa: BLE001
+            bad = (used[0], f"joint evaluation raised {type(ex).__name__}: {str(ex)[:200]}")
+        out["evals"].append((mode, eff, bad))
+        if bad:
+            break
+    if any(b for (_, _, b) in out["evals"]):
+        # is it the joint evaluation, or does some call already differ when computed alone (the sweep heuristic)?
+        out["alone"] = [run_real_full(g["calls"][i]) for i in used]
+    return out
+
+
+def work_joint(groups):
+    return [run_jointgraph(g) for g in groups]
+
+
+def judge_jointgraph(r, g, res):
+    """report a group; returns the number of failures added"""
+    calls = [g["calls"][i] for i in res["used"]]
+    dims = [g["dims"][i - 1] for i in res["used"] if i > 0]
+    if len(calls) < 2:
+        r.tag("joint-graph:skipped(fewer than two usable calls)")
+        return 0
+    n = 0
+    for (mode, eff, bad) in res["evals"]:
+        key = dict(g, modes=[mode])
+        r.case(key, nontrivial=res["distinct"],
+               tags=["stream:joint-graph", f"jg-mode:{eff}", f"jg-size:{len(calls)}"] +
+                    sorted({"jg-differs-in:" + d.split("+")[0] for d in dims}) +
+                    (["jg-sibling-function"] if any("+sibling" in d for d in dims) else []))
+        if not bad:
+            continue
+        single = 0
+        for c, alone in zip(calls, res["alone"]):
+            b1, _, k1 = judge(c, alone)
+            if b1:
+                single += 1
+                pub = {kk: c[kk] for kk in c if kk not in ("stream", "ux", "uy", "unit", "mx")}
+                r.fail(k1, b1 + " [a call of a joint-graph group, computed alone]", pub)
+        if single:
+            r.tag("joint-graph:difference-already-in-a-single-call")
+            return single
+        i, what = bad
+        r.fail(f"{g['calls'][i]['mode']}:differs-joint-graph",
+               f"{len(calls)} calls ({', '.join(c['mode'] for c in calls)}; each differing from the first in {dims}) evaluated in "
+               f"one graph [{eff}]: {what}; every one of them computed alone equals NumPy", key)
+        n += 1
+        break
+    return n
+
+
 # ---------------------------------------------------------------- run
 def run(r, n_override=None):
     n = n_override or {"quick": 64, "thorough": 640}[r.tier]
@@ -759,14 +916,31 @@ def run(r, n_override=None):
               "unique values (+NaN cells, explicit lists), max_distance k, k+1/2, sqrt(k+1/2), sqrt(k+1/4) and decimals, random chunk "
               "compositions (merged as dask merges them), whole-raster kernel vs kernel on each halo window, three modes; "
               "non-trivial = some window leaves a target outside and some cell has a non-zero distance; plus the exhaustive "
-              "spaces listed under exhaustive_space (all layouts with few targets x every block of every chunking)")
+              "spaces listed under exhaustive_space (all layouts with few targets x every block of every chunking). "
+              "stream joint-graph: groups of 3 (thorough 4) public calls on one Dask-backed raster (3..7 x 3..7, two or three classes) -- the "
+              "first with target_values = one class, each other one differing from it in exactly one place, rotating over "
+              "target_values / max_distance / metric / the raster / nothing, the function swapped for a sibling 35% -- whose lazy "
+              "results are evaluated in ONE graph (dask.compute of all / xr.Dataset / a - b), each judged against its own NumPy-backed "
+              "call (a difference that a call shows when computed alone is reported under that call's own key)")
     extra = window_stream(r)
-    cases = [b["case"] for b in r.corpus()] + [gen_case(r.rng) for _ in range(n)] + [c for (c, _, _) in extra]
+    cases = [b["case"] for b in r.corpus() if b["case"].get("stream") != "joint-graph"] + [gen_case(r.rng) for _ in range(n)] + [c for (c, _, _) in extra]
     sims = [None] * (len(cases) - len(extra)) + [(why, res) for (_, why, res) in extra]
     nproc = min(16, os.cpu_count() or 4)
     chunks = [cases[i::nproc] for i in range(nproc)]
+    import jointgraph
+    n_groups = {"quick": 6, "thorough": 32}[r.tier] * (1 if n_override is None else 2)
+    k0 = r.rng.randrange(15)
+    groups = [b["case"] for b in r.corpus() if b["case"].get("stream") == "joint-graph"] + \
+        [gen_jointgraph(r.rng, k0 + g, [jointgraph.MODES[(k0 + g + i) % 3] for i in range(2 if r.tier == "quick" else 3)],
+                        n_variants=2 if r.tier == "quick" else 3)
+         for g in range(n_groups)]
     with mp.get_context("fork").Pool(nproc) as pool:
-        results = pool.map(work, chunks)
+        first = pool.map_async(work, chunks, chunksize=1)
+        pending = pool.map_async(work_joint, [[g] for g in groups], chunksize=1)      # fill the workers as they finish
+        results = first.get()
+        joint_results = [x[0] for x in pending.get()]
+    for g, res in zip(groups, joint_results):
+        judge_jointgraph(r, g, res)
     ordered = {}
     for k, (cs, rs) in enumerate(zip(chunks, results)):
         for idx, (c, res) in enumerate(zip(cs, rs)):
@@ -815,6 +989,14 @@ def search(r):
 
 def replay(r, body):
     c = body["case"]
+    if c.get("stream") == "joint-graph":
+        before = len(r.failures)
+        judge_jointgraph(r, c, run_jointgraph(c))
+        if len(r.failures) > before:
+            print("still fails:", f"[{r.failures[-1]['key']}]", r.failures[-1]["what"])
+            return 1
+        print("does not fail on the current tree")
+        return 0
     bad, _, key = judge(c, run_real_full(c))
     if bad:
         print("still fails:", f"[{key}]", bad)
